@@ -188,38 +188,53 @@ def check_program(shard, prog, argv, choices_list, cut_sets=(), trailing=b"ab"):
 
 
 def compare_strict(rn, rs, info):
-    """rn/rs: byte-per-call traces of the non-strict and strict-done binaries."""
-    fn = [c for c in rn if c.kind in ("feed", "end")]
-    fs = [c for c in rs if c.kind in ("feed", "end")]
-    i = j = 0
-    while i < len(fn) and j < len(fs):
-        a, b = fn[i], fs[j]
-        if a.kind != b.kind:
-            return ("shape", "call kinds diverge at %d/%d" % (i, j))
-        same = (a.code == b.code and a.off == b.off and a.hooks == b.hooks and a.vars == b.vars)
-        if same:
-            if info.is_terminal(a.code) and a.code != FAIL:
-                return None          # after DONE nothing is asserted
-            i += 1
-            j += 1
-            continue
-        if a.code == DONE and b.code == OK and a.kind == "feed" and a.hooks == b.hooks and a.vars == b.vars:
-            # postponed: the very next strict call must return DONE without consuming
-            if j + 1 >= len(fs):
-                return None
-            nxt = fs[j + 1]
-            if nxt.code != DONE:
-                return ("not-postponed", "strict build returned OK instead of DONE at call %d but the next call returned %s" % (j, info.code_name(nxt.code)))
-            if nxt.kind == "feed" and nxt.off != b.off:
-                return ("postponed-consumed", "postponed DONE consumed input: *start %s -> %s" % (b.off, nxt.off))
+    """
+    rn/rs: byte-per-call traces of the non-strict and strict-done binaries.  The strict build may only postpone a DONE:
+    the sequences of non-OK results (yield codes, terminal result) with the hooks called and the outputs seen must be
+    identical; OK results are bookkeeping (a postponed DONE shows up as an extra OK; a yield on the program's last transition
+    does not advance *start in the non-strict build because DONE follows at once - pointer rules are checked per trace by
+    check_history).  After the non-strict DONE nothing is asserted.
+    """
+    def digest(calls):
+        out = []
+        hooks = []
+        for c in calls:
+            if c.kind not in ("feed", "end"):
+                continue
+            hooks.extend(c.hooks)
+            if c.code == OK:
+                continue
+            out.append((c.code, tuple(hooks), tuple(sorted(c.vars.items()))))
+            hooks = []
+            if info.is_terminal(c.code):
+                break
+        return out, hooks
+    dn, pend_n = digest(rn)
+    ds, pend_s = digest(rs)
+    k = min(len(dn), len(ds))
+    for i in range(k):
+        if dn[i] != ds[i]:
+            return ("differs", "result #%d: non-strict %r vs strict %r" % (i, dn[i], ds[i]))
+    if len(dn) > len(ds):
+        extra = dn[len(ds):]
+        # allowed only if the missing result is the final DONE and the strict trace simply ran out of calls
+        if len(extra) == 1 and extra[0][0] == DONE:
             return None
-        return ("differs", "call %d: non-strict %r vs strict %r" % (i, a, b))
+        return ("differs", "strict build lacks %r" % (extra[:2],))
+    if len(ds) > len(dn):
+        return ("differs", "strict build has extra results %r" % (ds[len(dn):][:2],))
     return None
 
 
 @st.composite
 def case_strategy(draw):
-    mode = draw(st.sampled_from(["plain", "plain", "yield", "yield", "eof", "lexer"]))
+    mode = draw(st.sampled_from(["plain", "plain", "yield", "yield", "eof", "lexer", "yield-tail"]))
+    if mode == "yield-tail":
+        from checks.c02 import yield_tail_program
+        prog = draw(yield_tail_program())
+        datas = [bytes(draw(st.lists(st.sampled_from(list(b"abxcdqef")), min_size=2, max_size=6))) for _ in range(3)]
+        cuts = draw(st.lists(st.lists(st.integers(1, 40), min_size=1, max_size=5), min_size=1, max_size=3))
+        return prog, list(prog.argv), datas, cuts
     if mode == "lexer":
         prog = draw(lexer_program())
         argv = list(prog.argv)
